@@ -445,24 +445,30 @@ class Ref:
                 t = t2
         return t
 
+    def presub(self, a, env, level=0):
+        """the resplit variant: what an argument text of a call in a template body looks like after the parameter values
+        (and the defaults of unbound parameters, recursively) have been written into it"""
+        a2 = []
+        for it in a:
+            if not isinstance(it, int) and it[0] == "A" and all(isinstance(x, int) for x in it[1][0]) and level < 8:
+                k = canon_key(render(it[1][0]))
+                val = env.get(k)
+                if val is None and len(it[1]) >= 2:
+                    a2 += self.presub(list(it[1][1]), env, level + 1)   # an unbound parameter's default is spliced in the same way
+                    continue
+                if isinstance(val, str) and "\0" not in val and "\1" not in val:
+                    a2 += [ord(ch) for ch in (val[:-1] if self.kludge and val.endswith("\n") else val)]
+                    continue
+            a2.append(it)
+        return a2
+
     def bind(self, args, env, depth, in_body, ht):
         num = 1
         for a in args[1:]:
             sp = self.split_named(a)
             if sp is None and self.resplit and env is not None:
                 # substitute plain parameter values first, then look for '=' again
-                a2 = []
-                for it in a:
-                    if not isinstance(it, int) and it[0] == "A" and all(isinstance(x, int) for x in it[1][0]):
-                        k = canon_key(render(it[1][0]))
-                        val = env.get(k)
-                        if val is None and len(it[1]) >= 2:
-                            a2 += list(it[1][1])            # an unbound parameter's default is spliced in the same way
-                            continue
-                        if isinstance(val, str) and "\0" not in val and "\1" not in val:
-                            a2 += [ord(ch) for ch in (val[:-1] if self.kludge and val.endswith("\n") else val)]
-                            continue
-                    a2.append(it)
+                a2 = self.presub(a, env)
                 sp = self.split_named(a2)
             if sp is not None and self.link_name_pos and env is not None and self.name_has_link(sp[0], env):
                 sp = None
@@ -546,6 +552,15 @@ class Ref:
                 if it == 61:
                     sp = (a[:i], a[i + 1:])
                     break
+            if sp is None and self.resplit and in_body and env is not None:
+                # (known deviation, resplit variant) the parameter values are already in the case's text when '=' is looked for
+                a2 = self.presub(a, env)
+                for i, it in enumerate(a2):
+                    if it == 60:
+                        break
+                    if it == 61:
+                        sp = (a2[:i], a2[i + 1:])
+                        break
             if sp is None:
                 last = self.argtext(a, env, depth, in_body).strip()
                 if last == val:
